@@ -41,6 +41,10 @@ def _jobs(tier, seed):
         jobs.append({"g": g, "inputs": inputs, "origin": "det", "consume": True})
         if i % 4 == 0 and not gen.cyclic(g["prods"], [t[0] for t in g["terms"]]):
             jobs.append({"g": g, "inputs": inputs[: 40], "origin": "det", "consume": False})
+    for i, g in enumerate(fam[: max(12, p["nfam"] // 6)]):
+        alpha = [t[2] for t in g["terms"]]
+        words = list(gen.token_strings(alpha, 3)) + [w for w in gen.directed_inputs(g, rng, n_all=2, maxlen=5, n_sent=6, n_mut=4)]
+        jobs.append({"g": g, "inputs": sorted({"".join(w) for w in words}), "origin": "det", "consume": True, "list": True})
     rng = random.Random(2000003 * (seed + 1))
     k = 0
     while k < p["nrand"]:
@@ -115,26 +119,45 @@ def worker(job):
     out = []
     glr_runs = {}
     glrs = {}
+    extra = {}
+    if job.get("list"):
+        # list (non-string) input: terminals with empty bodies and custom recognizers that index input[pos] without a bounds check
+        # (as the repository's own tests do); ws=None
+        head = text.split("terminals\n")[0]
+        text = head + "terminals\n" + "".join("%s: ;\n" % t[0] for t in g["terms"])
+        recs = {t[0]: (lambda name: (lambda inp, pos: inp[pos:pos + 1] if inp[pos] == name else None))(t[2]) for t in g["terms"]}
+        with real.quiet():
+            grammar0 = real.Grammar.from_string(text, recognizers=recs)
+        text_or_grammar = grammar0
+        ws = None
+        extra = {"ws": None}
+    else:
+        text_or_grammar = text
     for tables in ("LALR", "SLR"):
-        glrs[tables], _err = real.build("glr", text, tables=tables, consume_input=consume)
+        glrs[tables], _err = real.build("glr", text_or_grammar, tables=tables, consume_input=consume, **extra)
     for tables, ps, pse in COMBOS:
-        parser, err = real.build("lr", text, tables=tables, prefer_shifts=ps, prefer_shifts_over_empty=pse, build_tree=True,
-                                 consume_input=consume)
+        parser, err = real.build("lr", text_or_grammar, tables=tables, prefer_shifts=ps, prefer_shifts_over_empty=pse, build_tree=True,
+                                 consume_input=consume, **extra)
         grammar = parser.grammar if parser else (glrs[tables].grammar if glrs[tables] else None)
         if grammar is None:
             continue
         prods, terms = real.prods_json(grammar), real.term_names(grammar)
         tbl = real.table_json(parser) if parser else []
         for w in job["inputs"]:
-            if (tables, w) not in glr_runs:
-                glr_runs[(tables, w)] = _run_glr(real, glrs[tables], w) if glrs[tables] else {"kind": "nobuild", "n": 0, "trees": [], "exc": NOEXC}
+            wkey = w
+            if job.get("list"):
+                w = list(w)          # the parser is handed a list of items
+                wkey = "".join(w)
+            if (tables, wkey) not in glr_runs:
+                glr_runs[(tables, wkey)] = _run_glr(real, glrs[tables], w) if glrs[tables] else {"kind": "nobuild", "n": 0, "trees": [], "exc": NOEXC}
             lr = _run_lr(real, parser, w) if parser else {"kind": "nobuild", "tree": NOTREE, "exc": NOEXC}
             out.append({
-                "name": "%s [%s,ps=%d,pse=%d%s] @ %r" % (gen.gname(g), tables, ps, pse, "" if consume else ",prefix", w),
+                "name": "%s [%s,ps=%d,pse=%d%s%s] @ %r" % (gen.gname(g), tables, ps, pse, "" if consume else ",prefix", ",list-input" if job.get("list") else "", w),
+                "listinput": bool(job.get("list")),
                 "gtext": text, "tables": tables, "ps": ps, "pse": pse, "prio": False, "consume": consume, "origin": job["origin"],
                 "built": parser is not None, "build_err": err or "", "prods": prods, "terms": terms, "tbl": tbl,
-                "inputstr": w, "input": [ord(c) for c in w], "n": len(w), "skip": real.skip_table(w, ws), "match": real.match_table(grammar, w),
-                "lr": lr, "glr": glr_runs[(tables, w)],
+                "inputstr": wkey, "input": [ord(c) for c in wkey], "n": len(w), "skip": real.skip_table(w, ws), "match": real.match_table(grammar, w),
+                "lr": lr, "glr": glr_runs[(tables, wkey)],
             })
     return out
 
